@@ -1258,7 +1258,14 @@ class Mailbox:
         notifications.append(f"* {num_msgs} EXISTS\r\n")
         notifications.append(f"* {num_recent} RECENT\r\n")
         for c in self.clients.values():
-            await c.client.push(*notifications)
+            if c.pending_expunges():
+                # This client has not been told yet about messages that were
+                # expunged. The new message count already accounts for those
+                # expunges so it must not overtake them.
+                #
+                c.pending_notifications.extend(notifications)
+            else:
+                await c.client.push(*notifications)
 
         self.num_msgs = num_msgs
         self.num_recent = num_recent
